@@ -61,8 +61,9 @@ AInit == A = [ ob |-> [f \in FullIDs |-> Absent],
 
 (************************ RegionObjectsState *******************************)
 \* register_future / resolve_futures / cancel_futures
+\* (the key order of the dict only matters to the defective cancel_futures; it is not recorded otherwise)
 Register(S, r, l, ty) ==
-    [S EXCEPT !.ford[r] = IF <<l, ty>> \in Range(@) THEN @ ELSE Append(@, <<l, ty>>),
+    [S EXCEPT !.ford[r] = IF "D6" \notin Bugs \/ <<l, ty>> \in Range(@) THEN @ ELSE Append(@, <<l, ty>>),
               !.fpend[r] = @ \cup {<<l, ty>>}]
 Resolve(S, r, l, ty) == [S EXCEPT !.fpend[r] = @ \ {<<l, ty>>}]
 CancelFutures(S, r, l) ==
